@@ -2,6 +2,7 @@ package govc
 
 import (
 	"fmt"
+	"math/big"
 	"go/types"
 	"sort"
 	"strings"
@@ -689,6 +690,8 @@ func VerifyFunc(p *Program, fn *ssa.Function, prop string) (res *FuncResult) {
 	st.Alloc = c.Const("alloc0", smt.BV(64))
 	e.Alloc0 = st.Alloc
 	e.assume(st, c.Cmp("bvult", st.Alloc, e.bv64(1<<62)))
+	// the ghost work counter is a 128-bit mathematical counter: it starts far from wrapping
+	e.assume(st, c.Cmp("bvult", e.ghost(st, "work", smt.BV(128)), c.Lit(new(big.Int).Lsh(big.NewInt(1), 100), 128)))
 	var args []*Val
 	for _, prm := range fn.Params {
 		t := c.Const("arg:"+prm.Name(), sortOf(prm.Type()))
